@@ -38,8 +38,9 @@ import (
 // per listener Valid / ResolvedSecret / conditions, per route and backendRef Valid / SvcNsName / port / weight
 // and the route conditions, and the keys of ReferencedSecrets and ReferencedServices.
 //
-// Kept out of the generated inputs (see coq/C06/Model.v): backendRef-level filters (they panic, defect D1 of
-// C05), BackendTLSPolicies, NginxProxy, invalid hostnames/matches, listener port conflicts.
+// Kept out of the generated inputs (see coq/C06/Model.v): BackendTLSPolicies, NginxProxy, invalid
+// hostnames/matches/rule filters, listener port conflicts.  backendRef-level filters are generated only when a probe
+// shows that they do not panic (defect D1 of C05 on older trees).
 
 const (
 	c06Class      = "nginx"
@@ -67,6 +68,7 @@ type c06BackendRef struct {
 	Ns          *string
 	Port        *int32
 	Weight      *int32
+	Filters     bool // carries one backendRef-level filter (HTTPRoute / GRPCRoute only)
 }
 
 type c06Route struct {
@@ -281,7 +283,16 @@ func c06BuildState(w c06World) ClusterState {
 					Path: &gatewayv1.HTTPPathMatch{Type: c06P(gatewayv1.PathMatchPathPrefix), Value: c06P("/r" + strconv.Itoa(i))},
 				}}}
 				for _, b := range rule {
-					hrule.BackendRefs = append(hrule.BackendRefs, gatewayv1.HTTPBackendRef{BackendRef: c06BackendRefObj(b)})
+					hb := gatewayv1.HTTPBackendRef{BackendRef: c06BackendRefObj(b)}
+					if b.Filters {
+						hb.Filters = []gatewayv1.HTTPRouteFilter{{
+							Type: gatewayv1.HTTPRouteFilterRequestHeaderModifier,
+							RequestHeaderModifier: &gatewayv1.HTTPHeaderFilter{
+								Set: []gatewayv1.HTTPHeader{{Name: "X-C06", Value: "1"}},
+							},
+						}}
+					}
+					hrule.BackendRefs = append(hrule.BackendRefs, hb)
 				}
 				hr.Spec.Rules = append(hr.Spec.Rules, hrule)
 			}
@@ -294,7 +305,16 @@ func c06BuildState(w c06World) ClusterState {
 					Method: &gatewayv1.GRPCMethodMatch{Type: c06P(gatewayv1.GRPCMethodMatchExact), Service: c06P("svc" + strconv.Itoa(i)), Method: c06P("M")},
 				}}}
 				for _, b := range rule {
-					grule.BackendRefs = append(grule.BackendRefs, gatewayv1.GRPCBackendRef{BackendRef: c06BackendRefObj(b)})
+					gb := gatewayv1.GRPCBackendRef{BackendRef: c06BackendRefObj(b)}
+					if b.Filters {
+						gb.Filters = []gatewayv1.GRPCRouteFilter{{
+							Type: gatewayv1.GRPCRouteFilterRequestHeaderModifier,
+							RequestHeaderModifier: &gatewayv1.HTTPHeaderFilter{
+								Set: []gatewayv1.HTTPHeader{{Name: "X-C06", Value: "1"}},
+							},
+						}}
+					}
+					grule.BackendRefs = append(grule.BackendRefs, gb)
 				}
 				gr.Spec.Rules = append(gr.Spec.Rules, grule)
 			}
@@ -452,7 +472,7 @@ func c06WorldTerm(w c06World) string {
 			var bs []string
 			for _, b := range rule {
 				bs = append(bs, vu.App("BR", c06OptStr(b.Group), c06OptStr(b.Kind), vu.Str(b.Name), c06OptStr(b.Ns),
-					c06OptZ(b.Port), c06OptZ(b.Weight)))
+					c06OptZ(b.Port), c06OptZ(b.Weight), vu.Bool(b.Filters && r.Kind != 2)))
 			}
 			rules = append(rules, vu.List(bs))
 		}
@@ -520,6 +540,25 @@ var (
 )
 
 func c06Pick(r *vu.Rng, xs []string) string { return xs[r.Intn(len(xs))] }
+
+// c06FiltersOK: backendRef-level filters can be generated (on trees with defect D1 of C05 they panic in
+// processHTTPRouteRule / processGRPCRouteRule before any reference is looked at; probed at start).
+var c06FiltersOK bool
+
+func c06ProbeFilters() (ok bool) {
+	defer func() {
+		if recover() != nil {
+			ok = false
+		}
+	}()
+	w := c06World{GwNs: "ns-a", Listeners: []c06Listener{{Name: "http", Proto: 0}}}
+	for k := 0; k < 2; k++ {
+		w.Routes = append(w.Routes, c06Route{Kind: k, Ns: "ns-a", Name: "probe" + strconv.Itoa(k),
+			Rules: [][]c06BackendRef{{{Name: "svc1", Port: c06P(int32(80)), Filters: true}}}})
+	}
+	c06Observe(w, c06BuildState(w))
+	return true
+}
 
 // c06OptPick: nil with probability 1/den, else a pool element.
 func c06OptNs(r *vu.Rng, local string, hostile bool) *string {
@@ -651,7 +690,11 @@ func c06GenWorld(r *vu.Rng, size int, hostile bool) c06World {
 			}
 			rule := []c06BackendRef{}
 			for k := 0; k < nb; k++ {
-				rule = append(rule, c06GenBackendRef(r, rt.Ns, hostile))
+				b := c06GenBackendRef(r, rt.Ns, hostile)
+				if c06FiltersOK && rt.Kind != 2 && r.Chance(1, 12) {
+					b.Filters = true
+				}
+				rule = append(rule, b)
 			}
 			rt.Rules = append(rt.Rules, rule)
 		}
@@ -852,6 +895,8 @@ func c06IsCross(w c06World) bool { return len(c06CrossRefs(w)) > 0 }
 func TestVerifC06(t *testing.T) {
 	out := vu.Open("C06")
 	c06MakeKeyPair()
+	c06FiltersOK = c06ProbeFilters()
+	out.Extra("backendref_filters_exercised", c06FiltersOK)
 	rng := vu.NewRng(out.Seed ^ 0xC06)
 
 	emit := func(kind string, w c06World, ops []c06Op) {
